@@ -36,7 +36,10 @@ def apply_sar_adc(
     -------
     ndarray
     """
-    data_digitized_2d = np.zeros((num_rows, num_cols))
+    # Accumulate the code in the unsigned integer output type: a float accumulator
+    # cannot hold every code above 2**53 and rounds full scale up to 2**adc_bits
+    dtype = get_dtype(adc_bits)
+    data_digitized_2d = np.zeros((num_rows, num_cols), dtype=dtype)
 
     signal_normalized_2d = signal_2d.copy()
 
@@ -44,7 +47,7 @@ def apply_sar_adc(
     ref: float = max_volt / 2.0
 
     # For each bits, compare the value of the ref to the capacitance value
-    for i in np.arange(adc_bits):
+    for i in range(adc_bits):
         # digital value associated with this step
         digital_value = 2 ** (adc_bits - (i + 1))
 
@@ -57,8 +60,7 @@ def apply_sar_adc(
         # Divide reference voltage by 2 for next step
         ref /= 2.0
 
-    dtype = get_dtype(adc_bits)
-    return data_digitized_2d.astype(dtype)
+    return data_digitized_2d
 
 
 # TODO: documentation, range volt - only max is used
